@@ -526,23 +526,46 @@ def _ma_array(eng, args, kwargs):
 
 
 def _masked_argmin(eng, recv, args, kwargs):
+    """MaskedArray.argmin() followed by np.unravel_index(., shape).
+
+    numpy/ma/core.py:  argmin(axis=None, fill_value=None) = self.filled(minimum_fill_value(self)).view(ndarray).argmin().
+    What is ASSUMED are these library primitives (cross-checked against numpy by tools/xcheck_ext_C17.py):
+      (F) filled(v)[a, b] = v where mask[a, b], data[a, b] elsewhere;
+      (I) minimum_fill_value of a float array is +inf, which is larger than every cell (floats are reals: finite);
+      (A) ndarray.argmin() of a non-empty array is the flat position of the FIRST minimum in row-major order, and
+          np.unravel_index(flat, (n, m)) = (flat // m, flat % m).
+    What the carrier's proof USES - the result is an unmasked cell whose value is <= every unmasked cell - is DERIVED from them
+    on the path (obligation `model/masked-argmin-returns-an-unmasked-minimal-cell`), given that some cell is unmasked (safety
+    obligation `argmin-some-unmasked-entry`: numpy returns 0 silently for a fully masked array)."""
     if args or kwargs:
         raise Unsupported("MaskedArray.argmin with arguments")
     data, mask = recv.data, recv.mask
+    if data.kind != "real":
+        raise Unsupported("MaskedArray.argmin of a non-float array (its fill value is not +inf)")
     n, m = data.nz(), data.mz()
     a, b = z3.Int(fresh_name("ua")), z3.Int(fresh_name("ub"))
     inr = z3.And(0 <= a, a < n, 0 <= b, b < m)
     marr, darr = mask.arr, data.arr
     if not eng.spec_mode:
-        # numpy returns 0 SILENTLY when every entry is masked (or the array is empty): make that a proof obligation
         eng.prove(eng.site("argmin-some-unmasked-entry"), z3.Exists([a, b], z3.And(inr, z3.Not(sel2(marr, a, b)))), "safety",
                   "MaskedArray.argmin() of a fully masked array returns 0 without any error")
-    used(eng, "MaskedArray.argmin() with np.unravel_index(., shape): ASSUMED to return an unmasked cell (i, j) whose value is <= the value "
-              "of every unmasked cell (ties unspecified); REQUIRES some unmasked cell (proof obligation argmin-some-unmasked-entry)")
+    used(eng, "MaskedArray.argmin() with np.unravel_index(., shape) = first row-major minimum of the array in which the masked cells are replaced by "
+              "+inf (primitives: filled, minimum_fill_value(float) = +inf > every cell, ndarray.argmin = first minimum); the characterisation used by "
+              "the proof (an unmasked cell, minimal among the unmasked ones) is derived from these on the path; REQUIRES some unmasked cell "
+              "(proof obligation argmin-some-unmasked-entry)")
     i, j = fresh("int", "arg_i"), fresh("int", "arg_j")
-    eng.assume(z3.And(0 <= i.z, i.z < n, 0 <= j.z, j.z < m, z3.Not(sel2(marr, i.z, j.z))))
-    dk = data.kind
-    eng.assume(z3.ForAll([a, b], z3.Implies(z3.And(inr, z3.Not(sel2(marr, a, b))), sel2(darr, i.z, j.z) <= sel2(darr, a, b))))
+    inf = z3.Const(fresh_name("ma_inf"), z3.RealSort())
+    filled = lambda x, y: z3.If(sel2(marr, x, y), inf, sel2(darr, x, y))
+    eng.assume(z3.ForAll([a, b], z3.Implies(inr, sel2(darr, a, b) < inf)))                                                     # (I)
+    first = z3.Or(i.z < a, z3.And(i.z == a, j.z <= b))
+    eng.assume(z3.And(0 <= i.z, i.z < n, 0 <= j.z, j.z < m,                                                                        # (F), (A)
+                      z3.ForAll([a, b], z3.Implies(inr, z3.And(filled(i.z, j.z) <= filled(a, b), z3.Implies(filled(a, b) == filled(i.z, j.z), first))))))
+    derived = z3.And(z3.Not(sel2(marr, i.z, j.z)), z3.ForAll([a, b], z3.Implies(z3.And(inr, z3.Not(sel2(marr, a, b))), sel2(darr, i.z, j.z) <= sel2(darr, a, b))))
+    if not eng.spec_mode:
+        fn = (eng.cur_key or "?").split(":")[-1]
+        eng.prove(f"{fn}/model/masked-argmin-returns-an-unmasked-minimal-cell", derived, "annotation", "derived from the numpy primitives filled / +inf fill value / first minimum")
+    else:
+        eng.assume(derived)
     return FlatIdx(i, j, data.n, data.m)
 
 
